@@ -13,6 +13,13 @@ MODEL_DIR = os.path.join(common.VERIF, "models")
 _cache = {}
 
 
+def _run_tlc(d, cfg, dot):
+    return subprocess.run(
+        ["tlc", "-workers", "1", "-noGenerateSpecTE", "-metadir", os.path.join(d, "meta"), "-deadlock", "-config", cfg, "-dump", "dot,actionlabels", dot, "WriteBack.tla"],
+        cwd=d, capture_output=True, text=True, timeout=300,
+    )
+
+
 def available():
     return shutil.which("tlc") is not None
 
@@ -32,10 +39,11 @@ def graph(parts, atomic=True):
             f.write(f"CONSTANTS Parts = {parts}  Atomic = {'TRUE' if atomic else 'FALSE'}\nINIT Init\nNEXT Next\nINVARIANTS TypeOK NeverDamaged\n")
         shutil.copy(os.path.join(MODEL_DIR, "WriteBack.tla"), os.path.join(d, "WriteBack.tla"))
         dot = os.path.join(d, "g.dot")
-        r = subprocess.run(
-            ["tlc", "-workers", "1", "-noGenerateSpecTE", "-metadir", os.path.join(d, "meta"), "-deadlock", "-config", cfg, "-dump", "dot,actionlabels", dot, "WriteBack.tla"],
-            cwd=d, capture_output=True, text=True, timeout=300,
-        )
+        try:
+            r = _run_tlc(d, cfg, dot)
+        except Exception:  # noqa: BLE001 - TLC is supplementary: never let it break the check
+            _cache[key] = None
+            return None
         ok = "No error has been found" in r.stdout
         nodes, edges, init = {}, {}, None
         if os.path.exists(dot):
